@@ -11,13 +11,25 @@ CONFIG = dict(
              'are recorded.  Streams: exhaustive = every sequence of <= 4 (thorough: 5) operations over a 12-letter alphabet of '
              'allocator-level operations with two owners; boundary = 5 arena shapes (empty, one node, gaps only, mixed, no gaps) x 4 '
              'threshold positions x memory/disk; clone = mutate one side of a cloned allocator; random = long mixed scripts. '
-             'Non-trivial = at least 2 mallocs and (a free or a real hibernation); distinct = distinct operation list.',
+             'medium = arenas of 127..1000 cells (thorough: ..3000; sizes straddle 2^7, 2^8, .. 2^11 = the widths of the file varints) built by bulk fill / drain steps, '
+             'incompressible / periodic / sequential / constant values, 126..300 gaps, with the full fine correspondence and the model on every state. '
+             'scale (judged at checkpoints inside the harness by streaming comparison, the trace carries verdicts and the first differing index; no fine correspondence): '
+             'arenas of 10^3, 10^4, 2^14-1, 2^14, 2^14+1, 4*10^4, 2^15+1, 2^16+1, 10^5 cells (thorough also 2.3*10^5 .. 10^6) on two trees, keys ascending / descending / scrambled, '
+             'values sequential, constant, incompressible, periodic with periods 2^k and 2^k+-1 NODES (k = 8, 12..16) and 2^14, 2^16, 2^17 +-1 BYTES, with and without gaps, '
+             'everything erased (size-1 gaps) and refilled, Clone at scale; Hibernate at threshold 0 / size-1 / size / size+1, in memory and through a file (multi-byte varints checked '
+             'with the extracted write_varint, truncation at section boundaries +-1), Boot, second round trip after more frees and re-used gaps; checkpoints: owners disjoint (bitset), '
+             'no owned gap, Used() = live + 1, every tree iterates over exactly its own keys and values.  lz = CompressUInt32Slice / DecompressUInt32Slice alone on synthetic buffers of '
+             '1..257, 1000, 2^10, 2^12, 2^14, 2^15, 2^16 (each +-1), 10^4, 4*10^4, 2.3*10^5 .. 10^6 elements (thorough: .. 2^24+1) with the same patterns plus mixed literal-run / match-length / '
+             'distance ladders: the recorded LZ4 assumption (non-empty output, decompress(compress l) = l) is a PROPFAIL oracle on every such buffer and on every buffer of every hibernated arena. '
+             'Non-trivial = at least 2 mallocs and (a free or a real hibernation), for scale / lz cases at least one real hibernation or codec call; distinct = distinct operation list.',
         exhaustive_note='all sequences of length <= 4 (quick) / <= 5 (thorough) over {malloc by owner 0/1, free of id 1..3 by owner 0/1, free(0), '
                         'Hibernate, Boot, threshold:=3} on one allocator',
         assumptions=[
             'LZ4 (internal/rbtree/lz4hc.c, external C code): for every non-empty uint32 buffer l, CompressUInt32Slice(l) is non-empty and '
             'DecompressUInt32Slice(CompressUInt32Slice(l), len(l)) = l (Section hypothesis lz4_ok); a compressed block is shorter than 2^63 bytes '
-            '(lz4_small).  The harness decompresses every buffer the implementation produces with the real code and compares (driver counter lz4_buffers).',
+            '(lz4_small).  The harness decompresses every buffer the implementation produces with the real code and compares (driver counter lz4_buffers); '
+            'a violation of this assumption is reported as a property failure (it is the round-trip clause of the property); the scale and lz streams exercise it on buffers of up to 10^6 '
+            '(thorough 2^24) elements around the constants of lz4hc.c (64 KiB window, 2^15 hash table, 4096-position optimal parser, 15/255 length bytes, /255 of the compression bound).',
             'The OS file layer: a file holds the bytes written to it; os.File.Read on a regular file returns min(len(buf), remaining) bytes, '
             '(0, io.EOF) at the end, (0, nil) for an empty buffer.  Files larger than 1 GiB per buffer (one read syscall is capped) are outside the model.',
             'Go int is 64 bit; lengths are below 2^63; the int64 accumulator of ReadVariableWidthInt is modelled unbounded (it wraps only on hostile '
